@@ -2,12 +2,13 @@
 """Property dispatcher."""
 import os, subprocess, sys
 HERE = os.path.dirname(os.path.abspath(__file__))
-ENGINE_S = {"C01", "C02", "C03", "C04", "C05", "C06", "C07", "C09", "C10", "C13", "C15"}
+ENGINE_S = {"C01", "C02", "C03", "C04", "C05", "C06", "C07", "C09", "C10", "C13", "C15", "C18"}
 def main():
     prop = sys.argv[1]
     tier = sys.argv[sys.argv.index("--tier") + 1] if "--tier" in sys.argv else "quick"
     if prop in ENGINE_S:
-        sys.exit(subprocess.call([sys.executable, os.path.join(HERE, "driver.py"), prop, "--tier", tier]))
+        level = "translation_validation" if prop == "C18" else "model_checking"
+        sys.exit(subprocess.call([sys.executable, os.path.join(HERE, "driver.py"), prop, "--tier", tier, "--level", level]))
     print("unknown property", prop)
     sys.exit(2)
 main()
